@@ -17,8 +17,8 @@ Definition pd_spec (a b : pdt) (r : pdiff) : Prop :=
   ((pd_hours r * 60 + pd_minutes r) * 60 + pd_seconds r) * 1000000 + pd_microseconds r = tod b - tod a + beta * us_per_day /\
   0 <= pd_months r <= 11 /\
   ( (0 <= D /\ pd_days r = D /\ 12 * pd_years r + pd_months r = dm)
-  \/ (D < 0 /\ D = dimc - dlm /\ pd_days r = 0 /\ 12 * pd_years r + pd_months r = dm)
-  \/ (D < 0 /\ D <> dimc - dlm /\ pd_days r = D + Z.max dlm (p_day a) /\ 12 * pd_years r + pd_months r = dm - 1)).
+  \/ (D < 0 /\ D = dimc - dlm /\ p_day a = dlm /\ pd_days r = 0 /\ 12 * pd_years r + pd_months r = dm)
+  \/ (D < 0 /\ ~ (D = dimc - dlm /\ p_day a = dlm) /\ pd_days r = D + Z.max dlm (p_day a) /\ 12 * pd_years r + pd_months r = dm - 1)).
 
 Lemma if_same {A} (c : bool) (x : A) : (if c then x else x) = x. Proof. destruct c; reflexivity. Qed.
 
